@@ -33,10 +33,10 @@ PLAN = {
 
 
 PLAN.update({
-    "C07": {"quick": mon("c07", ("A", "B")),
+    "C07": {"quick": mon("c07", ("A",)),
             "thorough": mon("c07", ("A", "B")) + [{"monitor": "c07", "config": "A", "flavour": "asan", "args": []}]},
     "C08": {"quick": mon("c08", ("A", "B")), "thorough": mon("c08", ("A", "B"))},
-    "C12": {"quick": mon("c12", ("A", "B")), "thorough": mon("c12", ("A", "B"))},
+    "C12": {"quick": mon("c12", ("A",)), "thorough": mon("c12", ("A", "B"))},
     "C15": {"quick": mon("c15", ("A",)), "thorough": mon("c15", ("A",))},
     "C16": {"quick": mon("c16", ("A",)), "thorough": mon("c16", ("A", "B"))},
     "C17": {"quick": mon("c17", ("A", "B")), "thorough": mon("c17", ("A", "B"))},
